@@ -112,6 +112,11 @@ pub fn live_run_with(
         if out.is_io_err() {
             return Err(format!("live I/O error at op {}: {:?}", k, out));
         }
+        if matches!(op, Op::Restart) && matches!(out, Outcome::Err(_)) {
+            // the log could not be re-opened after a clean shutdown (C01 territory; C18 looks
+            // at whether a projection of the same history can)
+            return Err(format!("live restart failed at op {}: {:?}", k, out));
+        }
         let snap = Snapshot::take(sut.log()).map_err(|e| format!("live snapshot: {}", e))?;
         // cursor feedback for the align profile
         let evs = shim::take_events(dir);
